@@ -7,6 +7,6 @@ for d in /repo/libs/pika/*/include; do INC="$INC -I$d"; done
 CFG=/repo/_build; [ -d /repo/_build/libs/pika/config/include ] || CFG=/verif/.cfg
 for d in $CFG/libs/pika/*/include; do INC="$INC -I$d"; done
 exec clang++-14 -std=c++20 -O1 -fno-vectorize -fno-slp-vectorize -fno-unroll-loops \
-  -fsanitize=unreachable -fsanitize-trap=unreachable -Wno-everything \
-  -I/verif/shim -I/verif/rt -I/verif/kernels $INC -I$CFG -DPIKA_DEBUG \
+  -fsanitize=unreachable -fsanitize-trap=unreachable -Wno-everything -mllvm -inline-threshold=${VERIF_INLINE:-225} \
+  ${VERIF_SHIM:+-I$VERIF_SHIM} -I/verif/shim -I/verif/rt -I/verif/kernels $INC -I$CFG -DPIKA_DEBUG \
   "$@" -S -emit-llvm "$K" -o "$O"
